@@ -2,7 +2,7 @@
    Proofs/MetaFacts.v about Model/Node.v (as_reclass; render_node computes name, uri and the
    parts passed in).  The node name/uri/environment fields and the referencability of
    _reclass_ are compared with a Python reading of the property on every run. *)
-From RV Require Import Model.Node Proofs.MetaFacts.
+From RV Require Import Model.Names Model.Node Proofs.MetaFacts Proofs.NamesRule Proofs.MetaNode.
 
 (** The injected parameter: environment base, name {full, parts, path, short} with path = parts
     joined by "/", short = last part. *)
@@ -38,6 +38,27 @@ Theorem C18_fails_only_without_parts :
   forall cfg meta, m_parts meta = [] -> as_reclass cfg meta = Err EMetaParts.
 Proof. exact as_reclass_fails_only_without_parts. Qed.
 Eval cbv in "ASSUMPTIONS-OF C18_fails_only_without_parts"%string. Print Assumptions C18_fails_only_without_parts.
+
+(** node and name equal the discovered node name, the uri is yaml_fs:// plus the path of the node's
+    own file below the nodes directory, the environment is base: for every NodeInfo that
+    render_node returns (Proofs/MetaNode.v). *)
+Theorem C18_rendered_node_metadata :
+  forall f fi cfg root ntbl ctbl name ni,
+    render_node f fi cfg root ntbl ctbl name = Ok ni ->
+    exists ne, find_node name ntbl = Some ne /\
+      ni_node ni = name /\ ni_name ni = name /\ ni_env ni = "base"%string /\
+      ni_uri ni = ("yaml_fs://" ++ root ++ "/" ++ join "/" (ne_path ne))%string.
+Proof. exact rendered_node_metadata. Qed.
+Eval cbv in "ASSUMPTIONS-OF C18_rendered_node_metadata"%string. Print Assumptions C18_rendered_node_metadata.
+
+(** with composition the parts handed to `_reclass_` are the segments of the node file's path
+    below the nodes directory, the extension dropped: for every directory path, stem and YAML extension *)
+Theorem C18_parts_of_a_discovered_node :
+  forall dirs stem ext,
+    stem <> ""%string -> yaml_extension ext ->
+    strip_ext_path (dirs ++ [(stem ++ "." ++ ext)%string]) = dirs ++ [stem].
+Proof. exact parts_of_a_discovered_node. Qed.
+Eval cbv in "ASSUMPTIONS-OF C18_parts_of_a_discovered_node"%string. Print Assumptions C18_parts_of_a_discovered_node.
 
 Example C18_nonvacuous :
   as_reclass {| c_ignore := false; c_matches := []; c_compose := true; c_literal_dots := false |}
